@@ -58,6 +58,37 @@ def explore(pattern, mode, sort, optimistic=False, timeout_ms=20000):
     return ex.explore(thunk), ex, xs
 
 
+VECTORS = [[1], [1, 2], [2, 1], [1, 2, 3], [3, 1, 2], [0.5, 0.25], [0.1, 0.1, 0.1], [1, None, 3], [None, 2.5], [1, 2, 3, 4], [4, 3, 2, 1, 0],
+           [-1, 1], [1e6, -1e6, 0.5], [2, 2, 2, 2], [1.5, 2, 3], [10, 0, -10, 5, 5], [0, 0], [7, None, None, 7, 8]]
+
+
+def validate_translator():
+    """concrete mode: the interpreter executes the same AST on concrete items and must reproduce the real function's results
+    (every statistic, bit for bit); -> number of vectors compared"""
+    n = 0
+    for vals in VECTORS:
+        for mode in ('real', 'fp'):
+            ex = Explorer()
+            interp = Interp(vars(DT_InSV), mode=mode)
+
+            def thunk(st, vals=vals, interp=interp):
+                data = {'mapping': True}
+                selfo = Obj(items=[{'x': v} for v in vals], data=data, statistic_names=SV.statistic_names)
+                interp.call(STAT, [selfo, 'x', 'total-x'], st)
+                return dict(data)
+            leaves = ex.explore(thunk)
+            if len(leaves) != 1 or leaves[0].kind != 'return':
+                raise Unsupported('translator validation: concrete run of %r forked or raised' % (vals,))
+            got = leaves[0].value
+            want = real_stats(vals)
+            for k, w in want.items():
+                g = got.get('%s-x' % k)
+                if g != w and not (isinstance(g, float) and isinstance(w, float) and abs(g - w) <= 1e-12 * max(1.0, abs(w))):
+                    raise Unsupported('translator validation failed for %r: %s-x interpreter %r, real code %r' % (vals, k, g, w))
+            n += 1
+    return n
+
+
 def R(v):
     if astsmt.is_sym(v):
         return z3.ToReal(v) if z3.is_int(v) else v
@@ -116,9 +147,10 @@ def make_real(pattern, kind):
     def run(extra=()):
         t0 = time.time()
         try:
+            nvec = validate_translator()
             leaves, ex, xs = explore(pattern, 'real', sort)
         except Unsupported as u:
-            return {'status': 'inconclusive', 'message': 'astsmt: unsupported construct: %s' % u}
+            return {'status': 'inconclusive', 'message': 'astsmt: %s' % u}
         bad = None
         unknown = 0
         nq = 0
@@ -164,7 +196,7 @@ def make_real(pattern, kind):
         elif unknown:
             res.update(status='inconclusive', message='%d of %d leaf queries answered unknown' % (unknown, nq))
         else:
-            res.update(status='confirmed', message='all statistics identities unsat-negated on %d leaves (%d queries), items: %s' % (len(leaves), nq, kind))
+            res.update(status='confirmed', message='all statistics identities unsat-negated on %d leaves (%d queries), items: %s; %d translator vectors agree' % (len(leaves), nq, kind, nvec))
         return res
     return run
 
@@ -310,9 +342,10 @@ def make_fp(n, what):
     def run(extra=()):
         t0 = time.time()
         try:
+            nvec = validate_translator()
             leaves, ex, xs = explore('x' * n, 'fp', lambda nm: z3.FP(nm, astsmt.F64), optimistic=True)
         except Unsupported as u:
-            return {'status': 'inconclusive', 'message': 'astsmt: unsupported construct: %s' % u}
+            return {'status': 'inconclusive', 'message': 'astsmt: %s' % u}
         dom = fp_domain(xs)
         queries = {}
         if what == 'sqrt':
@@ -357,7 +390,7 @@ def make_fp(n, what):
         elif 'unknown' in verdicts:
             res.update(status='inconclusive', message='%d of %d FP queries not decided within %ds: %s' % (verdicts.count('unknown'), len(verdicts), cap, infos[:3]))
         else:
-            res.update(status='confirmed', message='%d distinct FP queries unsat (%s)' % (len(queries), '; '.join(infos[:2])))
+            res.update(status='confirmed', message='%d distinct FP queries unsat (%s); %d translator vectors agree' % (len(queries), '; '.join(infos[:2]), nvec))
         return res
     return run
 
